@@ -699,7 +699,8 @@ def r_path(R, head, path):
 
 def r_src(R, src):
     if src[0] == "P":
-        return r_path(R, R.ref(src[1]), src[2])
+        # (a source that names an ACTION - wrong kind - is spelled the way operands reach the action's object)
+        return r_path(R, R.ref(src[1]) + (".object_promise" if src[1][0] == "action" else ""), src[2])
     if src[0] == "V":
         return r_path(R, R.var_name(src[1]), src[2])
     return r_path(R, "$_object", src[1])
@@ -1156,6 +1157,93 @@ def p_step_on_wrong_source(rng, s, b):
         a["step"] = ("select", [rng.randrange(12)])
         return "select from a source that is not an object"
     return None
+
+
+# ---- C01 inside pipelines (owner tag C01P: only the pipeline family of checks/c01.py draws them)
+def _other_promise(rng, s, own, ctx):
+    c = [p for p in s["promises"] if p["id"] != own and p["type"][0] == "type" and promise_type(s, ctx, p["id"], []) is not None]
+    return rng.choice(c) if c else None
+
+
+@M.mutator("C01P")
+def p_filter_operand_undeclared_path(rng, s, b):
+    """The non-$_item operand of a filter clause is a global reference whose path leaves the declared attributes
+    (or names a promise that does not exist); the clause sits at any position, most often AFTER a nested condition
+    group of the same where array (created from two copies of a clause when the filter has none)."""
+    c = _pick_instr(rng, s, b, "app", lambda pl, ins, st, info: ins[2]["step"] is not None and ins[2]["step"][0] == "filter" and info[0] is not None)
+    if c is None:
+        return None
+    pl, ins, before, info, final = c
+    ctx, own = pipe_ctx(s, pl), pl["promise"][1]
+    clauses = ins[2]["step"][1]
+    if not any(cl[0] == "cmp" for cl in clauses):
+        return None
+    where = "as it stands"
+    if rng.random() < 0.7:
+        base = rng.choice([cl for cl in clauses if cl[0] == "cmp"])
+        first_cmp = min(i for i, cl in enumerate(clauses) if cl[0] == "cmp")
+        if not any(cl[0] == "nest" for cl in clauses[:first_cmp + 1]):
+            clauses.insert(rng.randrange(first_cmp + 1), ("nest", [base, base] if rng.random() < 0.7 else [base, ("nest", [base, base])]))
+        where = "after a nested group"
+    pos = [(lst, i, d) for lst, i, d in _cmp_positions(clauses)]
+    if where == "after a nested group":
+        pos = [(lst, i, d) for lst, i, d in pos if lst is clauses and any(cl[0] == "nest" for cl in lst[:i])]
+    rng.shuffle(pos)
+    other = _other_promise(rng, s, own, ctx)
+    for lst, i, depth in pos:
+        _, l, op, rr = lst[i]
+        for keep, side in ((l, 3), (rr, 1)):
+            if keep[0] != "item":
+                continue
+            cur = rr if side == 3 else l
+            if cur[0] == "prom":
+                o = ("prom", cur[1], list(cur[2]) + [770 + rng.randrange(20)])
+                what = "path extended by an undeclared attribute"
+            elif other is None:
+                continue
+            elif rng.random() < 0.75:
+                o = ("prom", ("promise", other["id"]), [770 + rng.randrange(20)])
+                what = "undeclared attribute of a declared promise"
+            else:
+                o = ("prom", ("promise", 880 + rng.randrange(20)), [])
+                what = "promise that does not exist"
+            lst[i] = ("cmp", keep, op, o) if side == 3 else ("cmp", o, op, keep)
+            return "filter clause at depth %d position %d (%s): %s" % (depth, i, where, what)
+    return None
+
+
+@M.mutator("C01P")
+def p_source_undeclared_path(rng, s, b):
+    """The source of an application or of a traversal is a promise path that leaves the declared attributes, or a
+    promise that does not exist."""
+    kind = rng.choice(["app", "trav"])
+    c = _pick_instr(rng, s, b, kind, lambda pl, ins, st, info: (ins[2]["src"] if kind == "app" else ins[2]["src"])[0] == "P")
+    if c is None:
+        return None
+    node = c[1][2]
+    src = node["src"]
+    if rng.random() < 0.8:
+        node["src"] = ("P", src[1], list(src[2]) + [770 + rng.randrange(20)])
+        return "%s source path extended by an undeclared attribute" % kind
+    node["src"] = ("P", ("promise", 880 + rng.randrange(20)), list(src[2]))
+    return "%s source names a promise that does not exist" % kind
+
+
+@M.mutator("C01P")
+def p_source_through_action(rng, s, b):
+    """The source of a traversal or an application names an ACTION on the promise it read (`action:A.object_promise
+    <path>`): the same object and the same type, but a reference of the wrong kind for the position."""
+    kind = rng.choice(["trav", "trav", "app"])
+    c = _pick_instr(rng, s, b, kind, lambda pl, ins, st, info: ins[2]["src"][0] == "P" and ins[2]["src"][1][0] == "promise"
+                    and any(a["promise"] == ins[2]["src"][1] for a in s["actions"]))
+    if c is None:
+        return None
+    node = c[1][2]
+    src = node["src"]
+    acts = [a for a in s["actions"] if a["promise"] == src[1]]
+    a = rng.choice(acts)
+    node["src"] = ("P", ("action", a["id"]), list(src[2]))
+    return "%s source reaches its promise through action %d" % (kind, a["id"])
 
 
 # ---- C09
